@@ -21,7 +21,7 @@ from harness import depthcommon
 PROP = 'C12'
 
 
-def body(ctx, conv, nk, positive, order, dpos, two_depths, via, holes, zdtype=None, marker=None):
+def body(ctx, conv, nk, positive, order, dpos, two_depths, via, holes, zdtype=None, marker=None, depth_is_data_var=False):
     from emsarray.operations import depth as depth_ops
     nloc = 2
     # horizontal layout per convention
@@ -35,6 +35,9 @@ def body(ctx, conv, nk, positive, order, dpos, two_depths, via, holes, zdtype=No
     elif conv == 'shoc_standard':
         base = builders.shoc_standard(1, nloc)
         sdims, sshape = builders.SHOC_DIMS['face'], (1, nloc)
+    elif conv == 'shoc_simple':
+        base = builders.shoc_simple(1, nloc)
+        sdims, sshape = ('j', 'i'), (1, nloc)
     elif conv == 'ugrid':
         base = builders.ugrid('tq')
         sdims, sshape = ('nface',), (2,)
@@ -134,14 +137,25 @@ def body(ctx, conv, nk, positive, order, dpos, two_depths, via, holes, zdtype=No
     ds['temp'].encoding.update({'_FillValue': -999.0, 'dtype': numpy.dtype('float32'), 'zlib': True})
     ctx.note('config', dict(conv=conv, nk=nk, positive=positive, order=order, dpos=dpos, two=two_depths))
 
+    gone_dims, gone_vars = ['k'], ['zc']
+    if via == 'convention' and conv in ('shoc_standard', 'shoc_simple'):
+        # the SHOC conventions know their depth coordinates by name: z_centre(k_centre) / zc(k); the time coordinate of a
+        # SHOC standard file is called t
+        if conv == 'shoc_standard':
+            ds = ds.rename({'zc': 'z_centre', 'k': 'k_centre', 'time': 't'})
+            depth_names = ['z_centre']
+            gone_dims, gone_vars = ['k_centre'], ['z_centre']
+        if depth_is_data_var:
+            # ... and it is found whether or not xarray holds it as a coordinate (decode_coords=False, reset_coords)
+            ds = ds.reset_coords(depth_names)
     with warnings.catch_warnings():
         warnings.simplefilter('ignore')
         if via == 'convention':
             # the alias on the convention finds every depth coordinate and the time coordinate by itself
             from emsarray.conventions.grid import CFGrid1D
-            from emsarray.conventions.shoc import ShocStandard
+            from emsarray.conventions.shoc import ShocSimple, ShocStandard
             from emsarray.conventions.ugrid import UGrid
-            cv = {'cf1d': CFGrid1D, 'shoc_standard': ShocStandard, 'ugrid': UGrid}[conv](ds)
+            cv = {'cf1d': CFGrid1D, 'shoc_standard': ShocStandard, 'shoc_simple': ShocSimple, 'ugrid': UGrid}[conv](ds)
             ctx.check({str(c.name) for c in cv.depth_coordinates} == set(depth_names), 'every depth coordinate of the dataset is found')
             out = cv.ocean_floor()
         elif via == 'iterator':
@@ -150,8 +164,8 @@ def body(ctx, conv, nk, positive, order, dpos, two_depths, via, holes, zdtype=No
         else:
             out = depth_ops.ocean_floor(ds, depth_names, non_spatial_variables=['time'])
 
-    ctx.check('k' not in out.dims and 'zc' not in out.variables, 'depth dimension and its coordinate are removed')
-    ctx.check(not any('k' in v.dims or 'k2' in v.dims for v in out.variables.values()), 'no variable is left on a depth dimension')
+    ctx.check(not any(d in out.dims for d in gone_dims) and not any(n in out.variables for n in gone_vars), 'depth dimension and its coordinate are removed')
+    ctx.check(not any(set(gone_dims + ['k2']) & set(v.dims) for v in out.variables.values()), 'no variable is left on a depth dimension')
     ctx.check('code' in out.variables and out['code'].dtype == numpy.dtype('int16') and tuple(out['code'].dims) == tuple(sdims),
               'an integer variable on the layers is reduced like the others and stays an integer variable')
     if 'code' in out.variables and tuple(out['code'].dims) == tuple(sdims):
@@ -206,7 +220,7 @@ def body(ctx, conv, nk, positive, order, dpos, two_depths, via, holes, zdtype=No
         a, b = out[n].values, base[n].values
         ctx.check(out[n].dims == base[n].dims and a.shape == b.shape and bool(numpy.all((a == b) | ((a != a) & (b != b)))),
                   'geometry variables unchanged')
-    ctx.check('time' in out.variables and 't' in out.dims, 'time coordinate kept')
+    ctx.check(('time' in out.variables or 't' in out.variables) and 't' in out.dims, 'time coordinate kept')
 
 
 def body_deep(ctx, nk):
@@ -277,6 +291,14 @@ def cases(tier):
         yield Case(f'{conv}:down:shallow_first:dpos0:nk3:two0:holes0:convention:marker-{list(marker)[0]}', body,
                    dict(conv=conv, nk=3, positive='down', order='shallow_first', dpos=0, two_depths=False, via='convention', holes=False,
                         zdtype='float64', marker=marker), patches=depthcommon.patches, max_paths=20000, split=16)
+    # SHOC conventions (depth coordinates known by name); the depth coordinate held as a plain variable; no positive attribute
+    for conv, positive, order, extra in (('shoc_simple', 'up', 'deep_first', dict()), ('shoc_simple', 'down', 'shallow_first', dict(depth_is_data_var=True)),
+                                         ('shoc_standard', 'up', 'shallow_first', dict(depth_is_data_var=True)), ('shoc_standard', 'up', 'deep_first', dict()),
+                                         ('shoc_standard', 'down', 'shallow_first', dict(zdtype='float64', marker={'long_name': 'Z coordinate'}))):
+        tag = '+'.join(extra) or 'plain'
+        yield Case(f'{conv}:{positive}:{order}:dpos0:nk3:two0:holes0:convention:{tag}', body,
+                   dict(conv=conv, nk=3, positive=positive, order=order, dpos=0, two_depths=False, via='convention', holes=False, **extra),
+                   patches=depthcommon.patches, max_paths=20000, split=16)
     for conv, two, positive in (('cf1d', True, 'down'), ('ugrid', 'same_dim', 'up'), ('ugrid', True, 'up'), ('cf1d', False, 'up')):
         # (SHOC conventions look their depth coordinates up by their fixed names: not exercised through the alias here)
         if q and two == 'same_dim':
